@@ -94,6 +94,13 @@ impl Scenario for Hb {
             // bytes arrived in time, the rx timer expired meanwhile, and the I/O thread finds both
             // in one wake-up; the server was never silent
             v.push(json!({"h": h, "server": chatty_frames, "client_at": [], "hold": [h * 1000, h * 3000]}));
+            // the server breaks the protocol (a body frame on channel 0) and then says nothing
+            // more, not even CloseOk to the client's Connection.Close: 2h of silence behind its
+            // last byte is still MissedServerHeartbeats - with the client's Close written, and
+            // with a peer that stopped reading just before (the Close never leaves)
+            v.push(json!({"h": h, "server": [[h * 500, "bad"]], "client_at": [], "silent_close": true}));
+            v.push(json!({"h": h, "server": [[h * 900, "hb"], [h * 1300, "bad"]], "client_at": [h * 200], "silent_close": true}));
+            v.push(json!({"h": h, "server": [[h * 500, "bad"]], "client_at": [], "silent_close": true, "stall_at": h * 400}));
         }
         // heartbeats off: silence is never fatal, nothing is sent
         // the client closes at 3 s, the server never answers and says nothing more: the close is
@@ -117,7 +124,7 @@ impl Scenario for Hb {
         }
     }
     fn describe(&self) -> String {
-        "negotiated heartbeat h in {1,2} s (thorough +60 s; plus h=0) under virtual time to a horizon of 6h: every pattern of up to 2 (thorough 3) server transmissions (a whole heartbeat frame or a single byte) placed on a grid of h/2 plus the points 3 ms, 2h-6 ms, 2h-5 ms, 2h+1 ms, a server that keeps talking, and client publishes at chosen times. Oracle (constraints, not a prediction): while alive the client writes at least every h (+10 ms) and idle filler is heartbeat frames; MissedServerHeartbeats happens iff inbound silence reaches 2h, not earlier than 2h-5 ms and not later than 2h+10 ms; any inbound byte counts; with h=0 nothing is sent and silence is never fatal".into()
+        "negotiated heartbeat h in {1,2} s (thorough +60 s; plus h=0) under virtual time to a horizon of 6h: every pattern of up to 2 (thorough 3) server transmissions (a whole heartbeat frame or a single byte) placed on a grid of h/2 plus the points 3 ms, 2h-6 ms, 2h-5 ms, 2h+1 ms, a server that keeps talking, a server that breaks the protocol and then falls silent (the client's Close written or stuck), and client publishes at chosen times. Oracle (constraints, not a prediction): while alive the client writes at least every h (+10 ms) and idle filler is heartbeat frames; MissedServerHeartbeats happens iff inbound silence reaches 2h, not earlier than 2h-5 ms and not later than 2h+10 ms; any inbound byte counts; with h=0 nothing is sent and silence is never fatal".into()
     }
     fn build(&self, p: &Value) -> Built {
         let h = p["h"].as_u64().unwrap();
@@ -129,14 +136,18 @@ impl Scenario for Hb {
         let mut byte_ix = 0usize;
         for ev in p["server"].as_array().unwrap() {
             let t = ev[0].as_u64().unwrap() * MS;
-            if ev[1] == "hb" {
+            if ev[1] == "hb" || ev[1] == "bad" {
                 // complete a partially sent frame first so that the stream stays well-formed
                 let mut b = Vec::new();
                 while byte_ix % 8 != 0 {
                     b.push(hbf[byte_ix % 8]);
                     byte_ix += 1;
                 }
-                b.extend_from_slice(&hbf);
+                if ev[1] == "bad" {
+                    b.extend_from_slice(&frame_bytes(&amq_protocol::frame::AMQPFrame::Body(0, vec![7])));
+                } else {
+                    b.extend_from_slice(&hbf);
+                }
                 broker.timed.push_back((t, b));
             } else {
                 broker.timed.push_back((t, vec![hbf[byte_ix % 8]]));
@@ -151,7 +162,7 @@ impl Scenario for Hb {
             broker.timed.push_back(((horizon_ms0 - 1) * MS, rest));
         }
         let close_at = p["close_at"].as_u64();
-        if close_at.is_some() {
+        if close_at.is_some() || p["silent_close"] == true {
             broker.close_behaviour = vh::sim::broker::CloseBehaviour::Silent;
         }
         let mut cfg = EnvConfig::default();
@@ -283,7 +294,15 @@ impl Scenario for Hb {
         if expect_death.is_none() && horizon > last_rx + 2 * hn + g {
             expect_death = Some(last_rx + 2 * hn);
         }
+        // (a connection that ends because the server broke the protocol - the client's Close is
+        // out, the I/O thread does not wait for an answer - was not declared dead for silence)
+        let bad_at = p["server"].as_array().unwrap().iter().find(|ev| ev[1] == "bad").map(|ev| ev[0].as_u64().unwrap() * MS);
+        let ended_by_exception = match (bad_at, died) {
+            (Some(b), Some(d)) => d >= b && p["stall_at"].is_null() && close_res.as_deref() == Some("Err(ClientException)"),
+            _ => false,
+        };
         match (expect_death, died) {
+            _ if ended_by_exception => {}
             (None, Some(d)) => {
                 // tolerated only by the 5 ms fudge: silence of at least 2h - 5 ms before d
                 let r = rx_times.iter().filter(|(t, _)| *t <= d).map(|(t, _)| *t).max().unwrap_or(start);
@@ -361,6 +380,11 @@ impl Scenario for Hb {
         // so the obligation to keep sending ends there)
         let alive_until = match p["close_at"].as_u64() {
             Some(c) => alive_until.min(c * MS),
+            None => alive_until,
+        };
+        // (the same holds for the Connection.Close that answers a protocol violation)
+        let alive_until = match p["server"].as_array().unwrap().iter().find(|ev| ev[1] == "bad") {
+            Some(ev) => alive_until.min(ev[0].as_u64().unwrap() * MS),
             None => alive_until,
         };
         if alive_until > last_w + hn + g {
